@@ -23,7 +23,8 @@ PROPS = "PdshVerif.Props.C10"
 MANIFEST = dict(
     engine="wcoll",
     technique="Lean 4 proof (termination of include reading for every include graph by a fuel-sufficiency "
-              "invariant, read-once, source order, error on unreadable, line splitting) + differential "
+              "invariant, read-once, source order, error on unreadable, byte-level reader: fgets pieces glued = whole lines, "
+              "include lookup in the command-line file's directory at every depth) + differential "
               "correspondence of the real pdsh binary over generated file trees against the compiled model",
     text="Theorems in lean/PdshVerif/Props/C10.lean about a hand-written model of wcoll.c and of the -w/^file/-/"
          "WCOLL processing of opt.c (virtual file system, fgets with LINEBUFSIZE regenerated from /repo); the real "
@@ -143,12 +144,16 @@ def spec_assemble(case, linebuf=None):
     stdin = case["stdin"] or ""
     exprs, skipped, excluded = [], 0, []
     srcs = list(case["sources"])
-    if not any(s[0] != "x" for s in srcs) and case["env"] is not None:
+    if not any(s[0] not in NOT_A_TARGET_SOURCE for s in srcs) and case["env"] is not None:
         srcs.append(("s",) if case["env"] == "-" else ("f", case["env"]))
     try:
         for s in srcs:
             if s[0] == "w":
                 exprs.append(s[1])
+            elif s[0] == "xw":
+                excluded.append(s[1])
+            elif s[0] in ("r", "xr"):
+                pass                    # a filter: see spec_regex
             elif s[0] in ("f", "x"):
                 if s[1] not in fs or not fs[s[1]][0]:
                     raise SpecError(s[1])
@@ -168,7 +173,19 @@ def spec_assemble(case, linebuf=None):
     return ("ok", exprs, skipped, excluded)
 
 
-def target_hosts(exprs, excluded):
+NOT_A_TARGET_SOURCE = ("x", "xw", "r", "xr")      # exclusion file, exclusion word, /regex/, -/regex/: filters, not sources
+
+
+def spec_regex(case):
+    """the filters of a command line: (negative?, pattern) in order"""
+    return [(s[0] == "xr", s[1]) for s in case["sources"] if s[0] in ("r", "xr")]
+
+
+def model_regex(field):
+    return [] if field == "~" else [(x[0] == "-", bytes.fromhex(x[1:]).decode("latin-1")) for x in field.split(",")]
+
+
+def target_hosts(exprs, excluded, regex=()):
     """the target list: hosts of the expressions in order, minus every host an exclusion file names;
     None when an excluded name occurs more than once among the targets (how many occurrences an exclusion
     removes is another property's business)"""
@@ -176,7 +193,10 @@ def target_hosts(exprs, excluded):
     ex = {h for e in excluded for h in expand_expr(e)}
     if any(hosts.count(h) > 1 for h in ex):
         return None
-    return [h for h in hosts if h not in ex]
+    out = [h for h in hosts if h not in ex]
+    for neg, pat in regex:          # /re/ keeps the names that match, -/re/ drops them (generator: patterns POSIX = Python)
+        out = [h for h in out if (re.search(pat, h) is None) == neg]
+    return out
 
 
 def opt_kind(o):
@@ -191,6 +211,7 @@ MALFORMED = ["#include", "#include ", "#include B C", "#includeB", " #include B"
              "#include\rB", "#include B\r", "x #include B", "#include\t\tB\tz", "#includeB C"]
 NAMES = "ABCDEFGHIJKL"
 LINEBUF = [2048]        # the reader's buffer size, set by run() from the constants regenerated from /repo
+TOPFD = [0]             # 0: read_wcoll closes its file; else the number of file sources that exhaust NOFILE_DEFAULT (probed)
 NOFILE_DEFAULT = 40     # RLIMIT_NOFILE of every `-Q` observation (deepest generated include chain: 12 files)
 
 
@@ -547,6 +568,272 @@ def gen_empty_src(rng, casedir):
             "wargs": wargs, "stdin": stdin, "env": env, "casedir": casedir, "nfiles": len(files), "alt_spelling": False}
 
 
+# ------------------------------------------------------------------ pinned cases: run FIRST in every run, no randomness
+def fs_alias(disk, casedir):
+    """the path STRINGS under which the reader may come to a file on disk (pdsh runs in casedir): as it is, with
+    `./`, absolute, and through `../<case directory>/`"""
+    fs = {}
+    bn = os.path.basename(casedir)
+    for p, v in disk.items():
+        for key in (p, "./" + p, casedir + "/" + p, "../" + bn + "/" + p):
+            fs[key] = v
+    return fs
+
+
+def pinned_cases(base, linebuf):
+    """the classes every quick run must cover, enumerated (no draw decides whether a class is reached):
+    every source kind alone and in every ordered pair x WCOLL unset/set x separate/comma-joined options; WCOLL alone
+    naming a good / missing / unreadable / empty file or `-`; every include-name spelling x every command-line style
+    with the current directory != the file's directory and decoys where a wrong lookup would land; nested lookups
+    (directory of the COMMAND-LINE file, not of the including file); chains, diamonds, cycles, cycle to top,
+    self-include, the same file under two spellings; line lengths k*(LINEBUFSIZE-1)+{-1,0,+1} (k=1,2,3) with a
+    following line and as an unterminated last line, in a top file, an included file and stdin; lexical forms;
+    `#include` look-alikes; missing / unreadable files at every depth; more skipped duplicates than descriptors"""
+    import random
+    out = []
+
+    def add(tag, disk, sources, wargs, stdin=None, env=None, stream="plain", shape="pinned", nofile=None, fs=None, **kw):
+        casedir = os.path.join(base, "p%d" % len(out))
+        if callable(disk):
+            disk = disk(casedir)
+        if callable(sources):
+            sources, wargs, env = sources(casedir)
+        c = {"stream": stream, "shape": shape, "pin": tag, "disk": dict(disk),
+             "fs": fs_alias(disk, casedir) if fs is None else fs, "sources": sources, "wargs": wargs, "stdin": stdin,
+             "env": env, "casedir": casedir, "nfiles": len(disk), "alt_spelling": kw.get("alt", False)}
+        if nofile:
+            c["nofile"] = nofile
+        out.append(c)
+        return c
+
+    # ---- A. sources: alone and in every ordered pair, WCOLL unset / set, separate options / one comma-joined option
+    base_disk = {"t/A": (True, "a1\n#include B\na2\n"), "t/B": (True, "b[1-2]\n"), "t/E": (True, "# nothing here\n\n \t\n"),
+                 "t/W": (True, "wc1\n#include B\n"), "t/X": (True, "b1 # out of service\n"), "t/U": (False, "u1\n"),
+                 "t/Z": (True, ""), "B": (True, "decoy-b\n")}
+    kinds = {"w": (("w", "w[1-2]"), "w[1-2]"), "v": (("w", "v7"), "v7"), "f": (("f", "t/A"), "^t/A"), "s": (("s",), "^-"),
+             "e": (("f", "t/E"), "^t/E"), "x": (("x", "t/X"), "-^t/X")}
+    STDIN = "s1\n# c\n s2 \n#include t/B\n"          # (stdin's includes are looked up in `.`: t/B is ./t/B)
+    combos = [[k] for k in "wfsex"] + [[a, ("v" if (a == b == "w") else b)] for a in "wfsex" for b in "wfsex"]
+    for combo in combos:
+        for env in (None, "t/W"):
+            for joined in (False, True):
+                srcs = [kinds[k][0] for k in combo]
+                if joined:
+                    wargs = [",".join(kinds[k][1] for k in combo)]
+                    if len(combo) == 1 and combo[0] not in "sx":
+                        continue            # (one piece: the separate form is the same command line)
+                else:
+                    wargs = [("x", "^t/X") if k == "x" else "-" if k == "s" else kinds[k][1] for k in combo]
+                sin = STDIN if "s" in combo else None
+                add("src:%s:%s:%s" % ("".join(combo), "wcoll" if env else "noenv", "joined" if joined else "separate"),
+                    base_disk, srcs, wargs, stdin=sin, env=env)
+    # empty stdin as the only source (a source WAS given: WCOLL must not be consulted), empty file + empty stdin
+    for sin in ("", "# no host\n\n"):
+        add("src:empty-stdin", base_disk, [("s",)], ["-"], stdin=sin, env="t/W")
+        add("src:empty-file+empty-stdin", base_disk, [("f", "t/Z"), ("s",)], ["^t/Z,^-"], stdin=sin, env="t/W")
+        add("src:include-of-empty", dict(base_disk, **{"t/I": (True, "#include Z\n# c\n")}), [("f", "t/I")], ["^t/I"],
+            env="t/W")
+    # WCOLL alone
+    for env, sin in (("t/W", None), ("t/missing", None), ("t/U", None), ("t/E", None), ("t/Z", None), ("-", "k1\nk2\n"),
+                     ("./t/W", None)):
+        add("wcoll-only:%s" % env, base_disk, [], [], stdin=sin, env=env)
+    add("wcoll-only:absolute", base_disk, lambda cd: ([], [], cd + "/t/W"), None)
+    add("wcoll+exclusion-only", base_disk, [("x", "t/X")], [("x", "^t/X")], env="t/W")
+    # WCOLL names a missing / unreadable file but a source is given: it is never opened
+    add("wcoll-missing-overridden", base_disk, [("w", "w1")], ["w1"], env="t/missing")
+    add("wcoll-unreadable-overridden", base_disk, [("f", "t/A")], ["^t/A"], env="t/U")
+    # ---- B. include-name spellings x command-line styles, cwd != directory of the file, decoys
+    for style in ("rel", "dot", "abs", "updir"):
+        for spell in ("bare", "sub", ".hid", "..two", ".d/in", "./cwd", "../up", "abs", "trail-blanks", "tab-sep"):
+            def disk(cd, style=style, spell=spell):
+                inc = {"bare": "B", "sub": "s/B", ".hid": ".hidB", "..two": "..twoB", ".d/in": ".d/B", "./cwd": "./o/B",
+                       "../up": "../" + os.path.basename(cd) + "/o/B", "abs": cd + "/o/B", "trail-blanks": "B \t ",
+                       "tab-sep": "B"}[spell]
+                sep = "\t \t" if spell == "tab-sep" else " "
+                d = {"t/A": (True, "a1\n#include%s%s\na2\n" % (sep, inc))}
+                name = inc.strip(" \t")
+                if spell in ("./cwd", "../up", "abs"):
+                    d["o/B"] = (True, "right[1-2]\n")
+                    d["t/o/B"] = (True, "decoy-next-to-top\n")
+                else:
+                    d["t/" + name] = (True, "right[1-2]\n")
+                    d[name] = (True, "decoy-in-cwd\n")
+                return d
+
+            def srcs(cd, style=style):
+                top = {"rel": "t/A", "dot": "./t/A", "abs": cd + "/t/A", "updir": "../" + os.path.basename(cd) + "/t/A"}[style]
+                return [("f", top)], ["^" + top], None
+            add("spell:%s:%s" % (style, spell), disk, srcs, None)
+    # the top file in the current directory (dirname = `.`)
+    add("spell:cwd-top", {"A": (True, "a1\n#include B\n#include s/C\n"), "B": (True, "b1\n"), "s/C": (True, "c1\n#include B\n")},
+        [("f", "A")], ["^A"])
+    # nested lookups: the directory of the file NAMED ON THE COMMAND LINE, not of the including file
+    nested = {"t/A": (True, "a1\n#include s/B\na2\n"), "t/s/B": (True, "b1\n#include C\n#include s/D\nb2\n"),
+              "t/C": (True, "c-right\n"), "t/s/C": (True, "c-decoy-next-to-includer\n"), "C": (True, "c-decoy-in-cwd\n"),
+              "t/s/D": (True, "d-right\n#include C\n"), "t/s/s/D": (True, "d-decoy\n")}
+    for style in ("rel", "dot", "abs"):
+        add("nested-lookup:%s" % style, nested,
+            lambda cd, style=style: (lambda top: ([("f", top)], ["^" + top], None))(
+                {"rel": "t/A", "dot": "./t/A", "abs": cd + "/t/A"}[style]), None)
+    add("nested-lookup:wcoll", nested, [], [], env="t/A")
+    add("nested-lookup:exclusion-file", nested, [("w", "c-right,keep1"), ("x", "t/A")], ["c-right,keep1", ("x", "^t/A")])
+    # an include only the including file's directory holds: an error (not found in the command-line file's directory)
+    add("nested-lookup:only-next-to-includer", {"t/A": (True, "#include s/B\n"), "t/s/B": (True, "#include K\n"),
+                                                "t/s/K": (True, "k1\n")}, [("f", "t/A")], ["^t/A"], stream="broken")
+    # ---- C. include graphs
+    graphs = {
+        "chain": {"A": "a1\n#include B\na2\n", "B": "b1\n#include C\nb2\n", "C": "c1\n#include D\nc2\n", "D": "d1\n"},
+        "diamond": {"A": "#include L\n#include R\na9\n", "L": "l1\n#include D\n", "R": "#include D\nr1\n", "D": "d[1-2]\n"},
+        "twice": {"A": "#include D\nmid\n#include D\n#include D\n", "D": "d1\n"},
+        "cycle": {"A": "a1\n#include B\na2\n", "B": "b1\n#include C\nb2\n", "C": "c1\n#include B\nc2\n"},
+        "cycle-top": {"A": "a1\n#include B\na2\n", "B": "b1\n#include A\nb2\n"},
+        "self-top": {"A": "a1\n#include A\na2\n"},
+        "self-inner": {"A": "a1\n#include B\na2\n", "B": "b1\n#include B\n#include B\nb2\n"},
+        "wide-tree": {"A": "".join("#include F%d\n" % i for i in range(8)),
+                      **{"F%d" % i: "f%d\n#include Z\n" % i for i in range(8)}, "Z": "z1\n"},
+    }
+    for gname, files in graphs.items():
+        d = {"t/" + n: (True, ct) for n, ct in files.items()}
+        add("graph:%s" % gname, d, [("f", "t/A")], ["^t/A"], shape=gname if gname in ("chain", "diamond", "cycle", "cycle-top") else "pinned")
+        add("graph:%s:wcoll" % gname, d, [], [], env="t/A")
+        add("graph:%s:between-words" % gname, d, [("w", "w1"), ("f", "t/A"), ("w", "w2")], ["w1,^t/A,w2"])
+    # the same file under two spellings that resolve to the SAME path string: skipped; to different strings: read
+    for style in ("rel", "dot", "abs"):
+        def disk2(cd, style=style):
+            dtop = {"rel": "t", "dot": "./t", "abs": cd + "/t"}[style]
+            other = "./t/B" if style == "rel" else dtop + "/B"     # rel: `t/B` vs `./t/B` are two strings (read twice)
+            return {"t/A": (True, "#include B\n#include %s\n#include L\nend\n" % other), "t/B": (True, "b1\n"),
+                    "t/L": (True, "l1\n#include %s\n#include B\n" % other)}
+        add("two-spellings:%s" % style, disk2,
+            lambda cd, style=style: (lambda top: ([("f", top)], ["^" + top], None))(
+                {"rel": "t/A", "dot": "./t/A", "abs": cd + "/t/A"}[style]), None, alt=True)
+    # ---- D. line lengths around k buffers, followed by a line / as the unterminated last line / elsewhere
+    step = linebuf - 1
+    for k in (1, 2, 3):
+        for delta in (-1, 0, 1):
+            r = random.Random(1000 * k + delta + 7)
+            n = k * step + delta - 1            # the line with its newline is delta bytes off k buffers
+            line = long_line(r, n, fill=[",", " ", "\t"][k - 1], comment=False, linebuf=linebuf)
+            add("len:%d*%d%+d:followed" % (k, step, delta), {"t/A": (True, "first\n" + line + "\nnext1,next2\nlast\n")},
+                [("f", "t/A")], ["^t/A"], stream="long")
+            add("len:%d*%d%+d:last-unterminated" % (k, step, delta), {"t/A": (True, "first\n" + line)},
+                [("f", "t/A")], ["^t/A"], stream="long")
+            add("len:%d*%d%+d:last-terminated" % (k, step, delta), {"t/A": (True, line + "\n")},
+                [("f", "t/A")], ["^t/A"], stream="long")
+            if k == 1:
+                add("len:%d*%d%+d:included" % (k, step, delta),
+                    {"t/A": (True, "a1\n#include B\na2\n"), "t/B": (True, line + "\nb-next\n")}, [("f", "t/A")], ["^t/A"],
+                    stream="long")
+                add("len:%d*%d%+d:stdin" % (k, step, delta), {"t/A": (True, "a1\n")}, [("s",), ("f", "t/A")], ["-", "^t/A"],
+                    stdin=line + "\ns-next\n", stream="long")
+                add("len:%d*%d%+d:wcoll" % (k, step, delta), {"t/W": (True, line + "\nw-next")}, [], [], env="t/W",
+                    stream="long")
+                add("len:%d*%d%+d:comment-tail" % (k, step, delta),
+                    {"t/A": (True, "h1 #" + line[4:].replace("#", " ") + "\nafter\n")}, [("f", "t/A")], ["^t/A"], stream="long")
+                add("len:%d*%d%+d:all-blank" % (k, step, delta),
+                    {"t/A": (True, " " * n + "\nafter\n")}, [("f", "t/A")], ["^t/A"], stream="long")
+    # two long lines in a row, each an exact multiple (a reader that glues on "buffer full" loses both boundaries)
+    r = random.Random(4711)
+    l1 = long_line(r, step - 1, fill=",", comment=False, linebuf=linebuf)
+    l2 = long_line(r, 2 * step - 1, fill=" ", comment=False, linebuf=linebuf)
+    add("len:two-exact-multiples", {"t/A": (True, l1 + "\n" + l2 + "\nq1\n")}, [("f", "t/A")], ["^t/A"], stream="long")
+    # ---- E. lexical forms
+    add("lexical", {"t/A": (True, "  a1  \n\ta2\t\n# c\n\n   \n\t\na3 # tail\na4#tail\n#\n#!x\n a5,a6 \n\t n[1-2]\t # t # u\n"
+                                  "q7 q8\tq9\n#comment #include B\nh2 #include B\n")}, [("f", "t/A")], ["^t/A"])
+    add("lexical:cr", {"t/A": (True, "foo\r\nbar\r\n")}, [("f", "t/A")], ["^t/A"])
+    add("lexical:only-noise", {"t/A": (True, "\n\n#\n   \n# x\n\t\n")}, [("f", "t/A")], ["^t/A"])
+    add("lexical:no-final-newline", {"t/A": (True, "a1\n  a2  ")}, [("f", "t/A")], ["^t/A"])
+    add("lexical:include-last-unterminated", {"t/A": (True, "a1\n#include B"), "t/B": (True, "b1")}, [("f", "t/A")], ["^t/A"])
+    # ---- F. `#include` look-alikes (the reader is more liberal than the property text: model correspondence only)
+    for i, bad in enumerate(MALFORMED + ["#include\tB", "#include B\t \t", "#INCLUDE B", "# include B", "#include  ",
+                                         "##include B", "#include B#c", "#include \"B\"", "#include <B>"]):
+        add("lookalike:%d" % i, {"t/A": (True, "a1\n" + bad + "\na2\n"), "t/B": (True, "b1\n"), "t/C": (True, "c1\n"),
+                                 "t/\"B\"": (True, "q1\n"), "t/<B>": (True, "angle1\n"), "t/B#c": (True, "hash1\n")},
+            [("f", "t/A")], ["^t/A"], stream="malformed")
+    # a lone `-` inside a list is NOT stdin (Props/C10 `dash_inside_list_is_not_stdin`); `[rcmd_type:][user@]host` words
+    for i, (w, sin) in enumerate([("w1,-", "s1\n"), ("-,w1", "s1\n"), ("w1,^-", "s1\n"), ("^-,^-", "s1\n"), ("user@h1", None),
+                                  ("exec:h2", None), ("exec:user@h3", None), ("h4,user@h5", None), ("a@b:c", None),
+                                  ("h6::x", None), (" h7", None), ("^ t/B", None)]):
+        add("word-forms:%d" % i, {"t/A": (True, "a1\n"), "t/B": (True, "b1\n")}, [("w", w)], [w], stdin=sin, stream="malformed")
+    # ---- filters are not sources: a -w argument holding ONLY a /regex/, a -/regex/ or an exclusion word does not create
+    # the list — WCOLL is still consulted, and filtered; with a real source next to it WCOLL is not
+    fd = {"t/W": (True, "h10\nh11\n#include V\n"), "t/V": (True, "h20,h21\n"), "t/E": (True, "# none\n"), "t/A": (True, "a10\na11\n")}
+    FW = {"r": (("r", "0$"), "/0$/"), "xr": (("xr", "0$"), "-/0$/"), "xw": (("xw", "h11"), "-h11"), "r2": (("r", "^h2"), "/^h2/"),
+          "w": (("w", "k10,k11"), "k10,k11"), "f": (("f", "t/A"), "^t/A"), "e": (("f", "t/E"), "^t/E"), "s": (("s",), "^-")}
+    for combo in (["r"], ["xr"], ["xw"], ["r2"], ["r", "xw"], ["xw", "r"], ["r", "r2"], ["xr", "xw"], ["r", "w"], ["w", "r"],
+                  ["xr", "f"], ["f", "xr"], ["r", "e"], ["e", "r"], ["xw", "e"], ["r", "s"], ["s", "xr"], ["xw", "w", "r"]):
+        for env in ("t/W", None):
+            for joined in (False, True):
+                if joined and len(combo) == 1:
+                    continue
+                srcs = [FW[k][0] for k in combo]
+                wargs = [",".join(FW[k][1] for k in combo)] if joined else [("-" if k == "s" else FW[k][1]) for k in combo]
+                add("filters:%s:%s:%s" % ("+".join(combo), "wcoll" if env else "noenv", "joined" if joined else "separate"),
+                    fd, srcs, wargs, stdin=("s10\ns11\n" if "s" in combo else None), env=env, stream="filters")
+        # the same filters given with -x
+        if all(k in ("xr", "xw") for k in combo):
+            add("filters:%s:-x" % "+".join(combo), fd, [FW[k][0] for k in combo], [("x", ",".join(FW[k][1][1:] for k in combo))],
+                env="t/W", stream="filters")
+    # ---- G. missing / unreadable at every depth (an ERROR, never a shorter list), also behind hosts already read
+    chain = graphs["chain"]
+    for depth, victim in enumerate("ABCD"):
+        for how in ("missing", "unreadable"):
+            d = {"t/" + n: (True, ct) for n, ct in chain.items()}
+            if how == "missing":
+                del d["t/" + victim]
+            else:
+                d["t/" + victim] = (False, chain[victim])
+            add("broken:%s:depth%d" % (how, depth), d, [("f", "t/A")], ["^t/A"], stream="broken")
+            add("broken:%s:depth%d:after-good-sources" % (how, depth), d, [("w", "w1"), ("f", "t/A"), ("w", "w2")],
+                ["w1", "^t/A", "w2"], stream="broken")
+            add("broken:%s:depth%d:exclusion-file" % (how, depth), d, [("w", "w1"), ("x", "t/A")], ["w1", ("x", "^t/A")],
+                stream="broken")
+            add("broken:%s:depth%d:wcoll" % (how, depth), d, [], [], env="t/A", stream="broken")
+            add("broken:%s:depth%d:wcoll-not-consulted" % (how, depth), d, [("w", "w1")], ["w1"], env="t/A", stream="broken")
+    # a file that is unreadable is an error even though a readable file of the same name sits in the current directory
+    add("broken:unreadable-with-decoy", {"t/A": (True, "#include B\n"), "t/B": (False, "b1\n"), "B": (True, "decoy\n")},
+        [("f", "t/A")], ["^t/A"], stream="broken")
+    # ---- H. descriptors: more skipped duplicates than the limit allows, every shape, every way to name the top file
+    for si, shape in enumerate(("fan-diamond", "fan-cycle", "fan-self")):
+        for kind in ("file", "env", "xfile"):
+            limit = 16
+            k = limit + 12
+            files = {}
+            if shape == "fan-diamond":
+                files["common"] = "login[1-2]\n"
+                top = []
+                for i in range(k):
+                    files["rack%d" % i] = ("r%dn1\n" % i if i in (0, k - 1) else "") + "#include common\n"
+                    top.append("#include rack%d" % i)
+            elif shape == "fan-cycle":
+                files["cyc_a"] = "a1\n#include cyc_b\n"
+                files["cyc_b"] = "b1\n#include cyc_a\n"
+                top = ["#include cyc_a" if i % 2 == 0 else "#include cyc_b" for i in range(k)]
+            else:
+                files["me"] = "m1\n" + "#include me\n" * k + "m2\n"
+                top = ["#include me"]
+            files["all"] = "\n".join(["z1"] + top + ["tail[8-9]"]) + "\n"
+            d = {"site/" + n: (True, ct) for n, ct in files.items()}
+            if kind == "file":
+                s, w, e = [("f", "site/all")], ["^site/all"], None
+            elif kind == "env":
+                s, w, e = [], [], "site/all"
+            else:
+                s, w, e = [("w", "z[1-3]")] + [("x", "site/all")], ["z[1-3]", ("x", "^site/all")], None
+            c = add("descriptors:%s:%s" % (shape, kind), d, s, w, env=e, stream="wide", shape=shape, nofile=limit)
+            c["duplicates"] = k
+    # the streams read_wcoll opens ITSELF (one per ^file / -x ^file / WCOLL): many file sources on one command line
+    tf = {"t/A": (True, "a1\n"), "t/B": (True, "b1\n")}
+    for kfiles in (20, 60):
+        add("descriptors:top-files:%d" % kfiles, tf, [("f", "t/A")] * kfiles, [",".join(["^t/A"] * kfiles)], stream="wide",
+            shape="top-files")
+        add("descriptors:top-files-separate:%d" % kfiles, tf, [("f", "t/A"), ("f", "t/B")] * (kfiles // 2),
+            ["^t/A", "^t/B"] * (kfiles // 2), stream="wide", shape="top-files")
+        add("descriptors:top-xfiles:%d" % kfiles, tf, [("w", "z1,a1")] + [("x", "t/B")] * kfiles,
+            ["z1,a1", ("x", ",".join(["^t/B"] * kfiles))], stream="wide", shape="top-files")
+    return out
+
+
 # ------------------------------------------------------------------ running the real pdsh
 def materialise(case):
     d = case["casedir"]
@@ -644,7 +931,8 @@ def model_line(case, mode):
 
 
 def spec_line(case):
-    srcs = ["s" if s[0] == "s" else "%s:%s" % (s[0], hx(s[1])) for s in case["sources"]]     # w: f: x: s
+    srcs = ["s" if s[0] == "s" else "%s:%s" % (s[0], hx(s[1])) for s in case["sources"]
+            if s[0] not in ("xw", "r", "xr")]     # w: f: x: s   (exclusion words and regex filters: not in WcollSpec)
     f = [hx(case["stdin"]) if case["stdin"] is not None else "~", hx(case["env"]) if case["env"] is not None else "~",
          str(len(srcs))] + srcs + fs_fields(case["fs"])
     return " ".join(f) + "\n"
@@ -678,7 +966,8 @@ BRANCHES = [
     "reader:line+nl=k*(buffer-1)", "reader:line+nl=k*(buffer-1)+1", "reader:exact-multiple-followed-by-line",
     # read_wcoll / opt.c
     "source:-w word", "source:^file", "source:- (stdin)", "source:^- (stdin)", "source:stdin-twice",
-    "source:WCOLL-used", "source:WCOLL-ignored", "source:-x ^file", "source:-^file word", "source:-x ^F,^G",
+    "source:WCOLL-used", "source:WCOLL-ignored", "source:/regex/ word", "source:-/regex/ word", "source:-word (exclusion)",
+    "source:only-filters+WCOLL", "source:-x ^file", "source:-^file word", "source:-x ^F,^G",
     "source:top-missing-or-unreadable=errx", "source:comma-joined -w",
     "outcome:ok", "outcome:errx", "outcome:no-remote-hosts",
 ]
@@ -752,14 +1041,22 @@ def branches_of(c, r):
                 nstdin += 1
             elif pc.startswith("-^"):
                 b.add("source:-^file word")
+            elif pc.startswith("/"):
+                b.add("source:/regex/ word")
+            elif pc.startswith("-/"):
+                b.add("source:-/regex/ word")
+            elif pc.startswith("-"):
+                b.add("source:-word (exclusion)")
             elif pc.startswith("^"):
                 b.add("source:^file")
             else:
                 b.add("source:-w word")
     if nstdin > 1:
         b.add("source:stdin-twice")
+    if c["env"] is not None and c["sources"] and not any(s[0] not in ("xw", "r", "xr") for s in c["sources"]):
+        b.add("source:only-filters+WCOLL")
     if c["env"] is not None:
-        b.add("source:WCOLL-used" if not any(s[0] != "x" for s in c["sources"]) else "source:WCOLL-ignored")
+        b.add("source:WCOLL-used" if not any(s[0] not in NOT_A_TARGET_SOURCE for s in c["sources"]) else "source:WCOLL-ignored")
     if r["rc"] == 0:
         b.add("outcome:ok")
     elif r.get("nohosts"):
@@ -804,7 +1101,7 @@ def judge(ctx, pdsh, cases, mode, linebuf):
 
     def predicted_bytes(ml):
         f = ml.split(" ")
-        if len(f) != 6 or f[0] != "ok":
+        if len(f) != 8 or f[0] != "ok":
             return 0
         return sum(len(h) + 1 for e in unl(f[3]) for h in expand_expr(e))   # (before exclusion: an upper bound)
     def spec_bytes(c):
@@ -838,11 +1135,23 @@ def judge(ctx, pdsh, cases, mode, linebuf):
             continue
         # ---------------- correspondence: model vs real
         mf = ml.split(" ")
-        if len(mf) != 6:
+        # F10-TOPFD mirrored: read_wcoll leaves the stream of every file source open; the model's ghost count says how
+        # many, the probe (TOPFD[0]: the number of file sources at which the real pdsh runs out under 40 descriptors)
+        # says when that is too many
+        exhausted = False
+        if len(mf) == 8 and TOPFD[0] and r.get("nofile"):
+            exhausted = int(mf[6]) >= TOPFD[0] - (NOFILE_DEFAULT - r["nofile"])
+        res_top = out[-1]
+        res_top["top_open"] = int(mf[6]) if len(mf) == 8 else None
+        if len(mf) != 8:
             v.append(("disagreement", "model answer", ml[:200]))
+        elif exhausted:
+            if not (r["rc"] == 1 and r["emfile"]):
+                v.append(("disagreement", "descriptors", "model: %s streams left open by read_wcoll exhaust the limit %s, real rc=%s %s" %
+                          (mf[6], r["nofile"], r["rc"], r["err"][-100:])))
         else:
             status, nwarn, created, exprs = mf[0], int(mf[1]), mf[2], unl(mf[3])
-            mhosts = target_hosts(exprs, unl(mf[4]))
+            mhosts = target_hosts(exprs, unl(mf[4]), model_regex(mf[7]))
             if status == "starved":
                 v.append(("disagreement", "model ran out of fuel", ml[:100]))
             elif status == "fatal":
@@ -868,7 +1177,7 @@ def judge(ctx, pdsh, cases, mode, linebuf):
         sf = sl.split(" ")
         lean_sp = ("error",) if sf[0] == "error" else ("ok", unl(sf[2]), int(sf[1]), unl(sf[3])) if len(sf) == 4 \
             else ("bad", sl[:80])
-        if lean_sp != sp:
+        if lean_sp != sp and not any(s[0] in ("xw", "r", "xr") for s in c["sources"]):
             v.append(("disagreement", "Opt/WcollSpec.lean vs the check's reading of the property",
                       "lean %r python %r" % (str(lean_sp)[:200], str(sp)[:200])))
         bad = None
@@ -877,12 +1186,15 @@ def judge(ctx, pdsh, cases, mode, linebuf):
                 bad = ("unreadable-not-error", "a source or included file is unreadable/missing but pdsh exits %s with "
                        "hosts %r" % (r["rc"], (r["hosts"] or [])[:6]))
         else:
-            hosts = target_hosts(sp[1], sp[3])
+            hosts = target_hosts(sp[1], sp[3], spec_regex(c))
             if hosts is None:
                 pass
             elif not hosts:
                 if r["rc"] != 1 or not r["nohosts"]:
                     bad = ("empty-list", "no hosts named, pdsh rc=%s" % r["rc"])
+            elif r["rc"] != 0 and exhausted and r["emfile"]:
+                bad = ("descriptor-leak:top-level-files", "all %d file sources are readable but pdsh exits %s under RLIMIT_NOFILE=%s: %s "
+                       "(read_wcoll never closes the file it opened)" % (int(mf[6]), r["rc"], r["nofile"], r["err"][-120:]))
             elif r["rc"] != 0:
                 bad = ("spurious-error", "all sources readable but pdsh exits %s: %s" % (r["rc"], r["err"][-200:]))
             elif r["hosts"] != hosts:
@@ -890,7 +1202,7 @@ def judge(ctx, pdsh, cases, mode, linebuf):
                 sig = "hosts"
                 if max_line(c) >= 2047 and linebuf:
                     sp2 = spec_assemble(c, linebuf=linebuf)
-                    if sp2[0] == "ok" and target_hosts(sp2[1], sp2[3]) == r["hosts"]:
+                    if sp2[0] == "ok" and target_hosts(sp2[1], sp2[3], spec_regex(c)) == r["hosts"]:
                         sig = "line-split-by-fgets"
                 bad = (sig, "target list differs at position %d: pdsh %r, property %r (list lengths %d / %d)" %
                        (k, r["hosts"][max(0, k - 1):k + 3], hosts[max(0, k - 1):k + 3], len(r["hosts"]), len(hosts)))
@@ -937,7 +1249,16 @@ def run(ctx):
     ctx.lean_build([PROPS, "pdshmodel"])
     ctx.audit(PROPS)
     cov = {"evaluations": 0, "distinct_nontrivial": 0, "samples": [],
-           "rule": "cases = generated file trees (1-12 files in the top file's directory, a sub-directory or elsewhere; "
+           "rule": "PINNED FIRST (checks/c10.py pinned_cases, no randomness, ~330 cases in every run): every source kind alone and in "
+                   "every ordered pair x WCOLL unset/set x separate/comma-joined options; WCOLL alone naming a good/missing/"
+                   "unreadable/empty file or `-`; every include-name spelling (bare, sub/, .hid, ..two, .d/, ./, ../, absolute, "
+                   "trailing blanks, tab separator) x every command-line style (relative, ./, absolute, ../) with decoys where a "
+                   "wrong lookup lands; nested lookups (directory of the COMMAND-LINE file); chain/diamond/twice/cycle/cycle-to-top/"
+                   "self graphs x 3 source positions; one file under two spellings; line lengths k*(LINEBUFSIZE-1)+{-1,0,+1}, k=1,2,3 "
+                   "followed by a line / last unterminated / last terminated / in an included file / stdin / WCOLL / comment tail / all "
+                   "blank; lexical forms incl. CR; #include look-alikes; missing and unreadable files at every depth x 5 source "
+                   "positions; more skipped duplicates than descriptors (3 shapes x 3 ways to name the top file); 20 and 60 file "
+                   "sources on one command line under 40 descriptors.  THEN cases = generated file trees (1-12 files in the top file's directory, a sub-directory or elsewhere; "
                    "include graphs chain/tree/diamond/cycle/cycle-to-top/self/random; include names bare, sub/NAME, "
                    "./, ../, absolute, and names that merely start with dots (.extraB, ..racksB, .d/listB: hidden "
                    "files/sub-directories, with decoy files of the same name in the current directory); pdsh runs in a "
@@ -968,7 +1289,22 @@ def run(ctx):
                  "casedir": os.path.join(base, "probe")}
         pr = run_real(pdsh, probe)
         splits = pr["hosts"] is not None and len(pr["hosts"]) > 1
-        mode = ("F%d" % linebuf) if splits else "W"
+        # F: every fgets piece parsed on its own (D12); G: the repaired reader AS WRITTEN — pieces of the same buffer
+        # glued until one holds a newline (byte-level model; Props/C10 `glued_pieces_whole`: = whole lines)
+        mode = ("F%d" % linebuf) if splits else ("G%d" % linebuf)
+        # F10-TOPFD: does read_wcoll leave the file it opened open?  the smallest number of `^file` sources on one
+        # command line that runs out of NOFILE_DEFAULT descriptors (none up to 64: it closes them)
+        TOPFD[0] = 0
+        for kf in (64, 40, 39, 38, 37, 36, 35, 34, 33, 32, 31, 30, 28, 24, 16):
+            pc = {"stream": "probe", "disk": {"A": (True, "a1\n")}, "fs": {}, "sources": [], "wargs": [",".join(["^A"] * kf)],
+                  "stdin": None, "env": None, "casedir": os.path.join(base, "probe")}
+            pr2 = run_real(pdsh, pc)
+            if pr2["rc"] == 1 and pr2["emfile"]:
+                TOPFD[0] = kf
+            else:
+                break
+        if not TOPFD[0]:
+            mode += "+c"
         # the small expander agrees with the real parser on the generator's expressions
         for e in EXPRS + ["w[2-3]", "v[1,4]z"]:
             word = e.split("#")[0].strip(" \t")
@@ -983,7 +1319,7 @@ def run(ctx):
             cases = [case_from_json(j["case"]["case"], os.path.join(base, "replay"))]
         else:
             n = 900 if ctx.quick() else 12000
-            cases = []
+            cases = pinned_cases(base, linebuf)
             # the witnesses of Props/C10.lean `include_line_restriction_forced`, run on the real pdsh (model
             # correspondence: the real binary must do what the reader side of the witness does), and an
             # ordinary line with CR (inside the theorem's and the oracle's domain)
@@ -1017,7 +1353,8 @@ def run(ctx):
                                       "fs": {"A": (True, content)}, "sources": [("f", "A")], "wargs": ["^A"],
                                       "stdin": None, "env": None, "casedir": os.path.join(base, "b%d" % k), "nfiles": 1})
                         k += 1
-        dist = {"streams": {}, "shapes": {}, "files": {}, "rc": {}, "reader": mode, "max_line_ge_2047": 0,
+        dist = {"streams": {}, "shapes": {}, "files": {}, "rc": {}, "reader": mode,
+                "read_wcoll_leaves_its_file_open(file sources that exhaust %d descriptors)" % NOFILE_DEFAULT: TOPFD[0], "max_line_ge_2047": 0,
                 "with_stdin": 0, "with_env": 0, "skips": 0, "branches": {b: 0 for b in BRANCHES}}
         distinct = set()
         nshrunk = 0
@@ -1030,6 +1367,9 @@ def run(ctx):
                 r = res["real"]
                 dist["streams"][c["stream"]] = dist["streams"].get(c["stream"], 0) + 1
                 dist["shapes"][c["shape"]] = dist["shapes"].get(c["shape"], 0) + 1
+                if c.get("pin"):
+                    pk = c["pin"].split(":")[0]
+                    dist.setdefault("pinned_classes", {})[pk] = dist.setdefault("pinned_classes", {}).get(pk, 0) + 1
                 dist["files"][str(c["nfiles"])] = dist["files"].get(str(c["nfiles"]), 0) + 1
                 dist["rc"][str(r["rc"])] = dist["rc"].get(str(r["rc"]), 0) + 1
                 dist["with_stdin"] += 1 if c["stdin"] is not None else 0
